@@ -4,8 +4,9 @@ import json
 import sys
 
 pid, wt = sys.argv[1], sys.argv[2]
+rnd = int(sys.argv[3]) if len(sys.argv) > 3 else 1
 prop = [json.loads(l) for l in open('/verif/properties.jsonl') if json.loads(l)['id'] == pid][0]
-print('''You are helping to evaluate static checkers for the C++/Qt library QXmpp by playing the role of a maintainer who
+text = ('''You are helping to evaluate static checkers for the C++/Qt library QXmpp by playing the role of a maintainer who
 cleans up code WITHOUT changing its behaviour. You work ONLY inside your own scratch git worktree of the library at
 
     %(wt)s        (already configured and fully built in %(wt)s/_build with Ninja; Qt 5, no network)
@@ -44,3 +45,15 @@ Deliverables, all under %(wt)s/_seed/ (create it):
   B/... E/...    the same for the others
 When you are done, restore the worktree sources (git -C %(wt)s checkout -- src) so that only _seed/ remains as untracked output.
 In your final answer, summarise the five refactorings in two lines each.''' % {'wt': wt, 'pid': pid, 'prop': json.dumps({k: prop[k] for k in ('id', 'title', 'statement', 'quantifier', 'anchors')}, indent=1)})
+if rnd == 2:
+    text = text.replace('    Use a different kind of refactoring for each of the five, and touch the code that matters for the property, not unrelated code.',
+                        '''    Use a different kind of refactoring for each of the five, and touch the code that matters for the property, not unrelated code.
+    Spread the five over at least four different functions, and put at least two of them into close COLLABORATORS of the main mechanism rather
+    than into its central function: helpers, accessors and setters, data classes and their serialisers/parsers, storage classes, configuration
+    objects, the callers of the mechanism, slots and lambdas connected to its signals, reset/cleanup/teardown code. Prefer kinds of clean-up
+    such as: split one function in two or merge two; change the iteration style or the container access (index loop, iterator loop, range-for,
+    algorithm, find/contains/value); turn a lambda slot into a member slot or back; change how a value is passed (by value, by reference, through a
+    small struct, std::optional instead of a flag plus a value); introduce or remove a named local, an early return, an if-with-initialiser;
+    hoist a common statement out of two branches or duplicate it into them; reorder independent member initialisations or independent statements;
+    replace a boolean parameter by two functions (or the reverse).''')
+print(text)
